@@ -78,3 +78,13 @@ chk("C12", "exploration",
     "a scalar-valued operation or an engine error makes a claim inconclusive; the owner of a claim is recovered from the claim's label and modifier; analyser false positives found (on() label carried by neither side, folded aggregations/functions of constants, `or` and `bool` cases pinned by the repo's own tests) are listed known findings identified by engine-observed causes",
     "differential oracle (real PromQL engine) over in-process executions of pint's analyser",
     "DESIGN.md §3 C12")
+chk("C09", "exploration",
+    "reference-model monitor: an independent evaluator of the documented match/ignore semantics vs the blocks pint's real Config.GetChecksForEntry selects (marker checks), for every subset of the nine condition kinds in one match and one ignore (bounded-exhaustive, 2^9 each) plus random multi-block configurations, over a 24-rule vocabulary x 3 commands x 5 states (~0.74M / ~12M decisions); a sample is replayed through the pint binary for lint, ci (scratch git repo, states assigned by pint) and watch via the H1 dispatch dump.",
+    "the reference evaluator is a reading of docs/configuration.md; removed-state rules and an ignore without state under ci on an unmodified rule are don't-care; enable/disable lists and locked are C08's",
+    "reference-model monitor over in-process executions of the real config matching code + pint child processes",
+    "DESIGN.md §3 C09")
+chk("C13", "exploration",
+    "the real promapi client (with cache and worker pool, under the Go race detector in child processes) runs range queries against a logging fake Prometheus; the oracle takes the evaluation grid from the server log (one progression of the step, no holes, correct ends), checks convention-free coverage invariants per series, equality with an independent unsliced fold and with AppendSampleToRanges+ExpandRangesEnd applied once, and identical results across five perturbed slice completion orders and a cached repeat; crashes, runaway memory and race reports are captured. 3000 / 40000 cases x 6 calls, stratified over 27 steps (1s..25h) x lookback classes.",
+    "fake server's evaluation rule (ms rounding, Prometheus refusals), point-wise presence model, server completion order as a proxy for arrival order; steps >= 1 s; at most 39 slices",
+    "runtime monitoring: reference fold + grid invariants on server-logged requests + order perturbation + Go race detector",
+    "DESIGN.md §3 C13")
